@@ -67,11 +67,13 @@ Proof.
         rewrite Hp, Hb by (rewrite vscal_length; assumption). cbn [rbind].
         rewrite vscal_vsub, vscal_inv_l, !vscal_vscal by assumption.
         do 3 f_equal. field. assumption.
+  - (* FRightVec *) left. exists ENotImpl. reflexivity.
   - (* FSum *) left. exists ENotImpl. reflexivity.
   - (* FScalarSum *) apply andb_true_iff in Hlin. destruct Hlin as [L1 _]. exact (IHf n w Hl L1).
-  - (* FQuadPert *) apply andb_true_iff in Hlin. destruct Hlin as [L1 L2]. numR.
-    destruct (Reqb_spec a 0) as [->|]; [|discriminate]. destruct Hl as (Lu & Hl & Hc0).
-    specialize (Hc0 L1 eq_refl). subst c. specialize (IHf n w Hl L1).
+  - (* FQuadPert *) apply andb_true_iff in Hlin. destruct Hlin as [L12 L3].
+    apply andb_true_iff in L12. destruct L12 as [L1 L2]. numR.
+    destruct (Reqb_spec a 0) as [->|]; [|discriminate]. destruct (Reqb_spec c 0) as [->|]; [|discriminate].
+    destruct Hl as (Lu & Hl). specialize (IHf n w Hl L1).
     assert (Hprox : forall tau y, prx (FQuadPert f 0 u 0) w tau y =
               (q <- prx f w (tau * (1 * 1)) (vscal 1 (vsub (vscal 1 y) (vscal (tau * 1) u))) ;;
                Ok (vscal 1 (vscal 1 q)))).
@@ -87,7 +89,6 @@ Proof.
       cbn [rbind]. rewrite !vscal_one.
       rewrite vsub_vsub. replace (tau * (1 * 1)) with tau by ring. replace (tau * 1) with tau by ring.
       rewrite vscal_vadd. reflexivity.
-  - (* FDefConj *) congruence.
   - (* FSep2 *) apply andb_true_iff in Hlin. destruct Hlin as [L1 L2]. destruct Hl as (Hk & Hl1 & Hl2).
     specialize (IHf k (firstn k w) Hl1 L1). specialize (IHg (n - k)%nat (skipn k w) Hl2 L2).
     assert (Lf : forall y : Rvec, length y = n -> length (firstn k y) = k)
@@ -125,13 +126,12 @@ Proof.
     injection Hc as <-. cbn [lwf]. eauto.
   - (* FTransl *) destruct Hwf as [Lt Hwf]. destruct (cj w f) as [f'|] eqn:E; cbn [rbind] in Hc; [|discriminate].
     injection Hc as <-. cbn [lwf]. repeat split; eauto.
-  - (* FQuadPert *) destruct Hwf as (Ha & Lu & Hwf & Hflag). numR.
+  - (* FQuadPert *) destruct Hwf as (Ha & Lu & Hwf). numR.
     destruct (Reqb_spec a 0) as [Hz|Hz].
     + destruct (cj w f) as [f'|] eqn:E; cbn [rbind] in Hc; [|discriminate].
       destruct (Reqb c 0); injection Hc as <-; cbn [lwf]; apply lwf_mkTransl.
-    + injection Hc as <-. cbn [lwf is_linear]. numR. rewrite (Reqb_false a 0) by assumption.
-      apply andb_false_r.
-  - (* FDefConj *) destruct HD as [_ HD]. injection Hc as <-. eapply wf_D_lwf; eauto.
+    + injection Hc as <-. exact I.
+  - (* FDefConj *) injection Hc as <-. eapply wf_D_lwf; eauto.
   - (* FBreg *) eauto.
   - (* FSep2 *) destruct Hwf as (Hk & H1 & H2). destruct HD as [D1 D2].
     destruct (cj (firstn k w) f) as [f'|] eqn:E1; cbn [rbind] in Hc; [|discriminate].
@@ -449,7 +449,7 @@ Proof.
     rewrite cprox_FTransl, <- vscal_vsub in Hq.
     pose proof (IHf n w (vsub x t) sigma p0 q Hwf HD Lw ltac:(rewrite vsub_length; congruence) Hs E0 Hq) as H.
     rewrite vadd_assoc, H. apply vadd_vsub_cancel. congruence.
-  - (* FQuadPert *) cbn [wf] in Hwf. destruct Hwf as (Ha & Lu & Hwf & Hflag).
+  - (* FQuadPert *) cbn [wf] in Hwf. destruct Hwf as (Ha & Lu & Hwf).
     destruct (Req_dec a 0) as [->|Hna].
     + rewrite prox_QP0 in Hp. rewrite cprox_FQuadPert0 in Hq.
       destruct (cprox w f (1 / sigma) (vsub (vscal (1 / sigma) x) u)) as [q'|] eqn:Eq; cbn [rbind] in Hq; inv_ok.
@@ -466,7 +466,7 @@ Proof.
       { eapply (prox_length sqrtf (FQuadPert f a u c)); [|exact Lx|exact Hp].
         cbn [lenwf]. split; [assumption | apply wf_lenwf; assumption]. }
       rewrite Hp in Hp'. inv_ok. apply moreau_by_def; [lra | congruence].
-  - (* FDefConj *) cbn [wf] in Hwf. destruct HD as [_ HD]. rewrite cprox_FDefConj in Hq.
+  - (* FDefConj *) cbn [wf] in Hwf. rewrite cprox_FDefConj in Hq.
     cbn [prox] in Hp. unfold moreau_conj in Hp. numR. rewrite Hq in Hp. cbn [rbind] in Hp. inv_ok.
     apply vsub_vadd_cancel. rewrite vscal_length.
     assert (Lq : length q = n).
